@@ -68,7 +68,7 @@ func modelled(typ string) bool {
 	}
 	switch base {
 	case "threshold", "unanimity", "cnf", "hierarchical", "boolexpr", "msp", "kwshare", "feldmanshare",
-		"feldmanlifted", "feldmanvv", "pedersenvv", "dkls23partialsig", "basepublic", "baseshard", "ecdsasig", "matrix", "sqmatrix", "mvmatrix",
+		"feldmanlifted", "feldmanvv", "pedersenvv", "pedersenshare", "pedersenlifted", "dkls23partialsig", "basepublic", "baseshard", "dkls23shard", "schnorrshard", "ecdsasig", "matrix", "sqmatrix", "mvmatrix",
 		"nat", "int", "natplus", "scalar", "point":
 		_, _, _, ok := curveParams(typ)
 		return ok
@@ -367,10 +367,12 @@ func genCases(a vh.Args, samples []Sample) []*tcase {
 					continue
 				}
 				cnt++
-				for _, v := range []uint64{0, 1} {
-					if x.x.n == v {
+				tried := map[uint64]bool{x.x.n: true}
+				for _, v := range []uint64{0, 1, 4, x.x.n + 1, x.x.n - 1} {
+					if tried[v] {
 						continue
 					}
+					tried[v] = true
 					root := tree.clone()
 					rr := collect(&root)
 					rr[ri].x.n = v
@@ -412,7 +414,7 @@ func genCases(a vh.Args, samples []Sample) []*tcase {
 				}
 			}
 		}
-		if strings.HasPrefix(s.Type, "baseshard") {
+		if isShard(s.Type) {
 			// another (valid) private share value under unchanged public data
 			for k := 0; k < 3; k++ {
 				root := tree.clone()
@@ -468,7 +470,7 @@ func genCases(a vh.Args, samples []Sample) []*tcase {
 					continue
 				}
 				sm := true
-				if strings.HasPrefix(s.Type, "baseshard") && strings.HasPrefix(m.Path, "/share/value") && strings.HasPrefix(m.Kind, "bytes-") {
+				if isShard(s.Type) && strings.HasPrefix(m.Path, "/share/value") && strings.HasPrefix(m.Kind, "bytes-") {
 					sm = false // a different private share cannot match the unchanged public data
 				}
 				cases = append(cases, &tcase{class: "mut", sample: s, mut: m, stream: m.Bytes, sm: sm})
@@ -505,6 +507,12 @@ func genCases(a vh.Args, samples []Sample) []*tcase {
 		cases = append(cases, &tcase{class: "any-mut", mut: m, stream: m.Bytes})
 	}
 	return cases
+}
+
+// isShard: types whose wire format is mpc.BaseShard's (the dkls23 and schnorr shards embed it and
+// inherit its MarshalCBOR / UnmarshalCBOR).
+func isShard(typ string) bool {
+	return strings.HasPrefix(typ, "baseshard") || strings.HasPrefix(typ, "dkls23shard") || strings.HasPrefix(typ, "schnorrshard")
 }
 
 func expensive(typ string) bool {
@@ -798,11 +806,11 @@ func evaluate(a vh.Args, res *vh.Result, cases []*tcase) {
 			}
 			res.Count(cls, c.canon(), verdict == "ok")
 			if c.anyPan != "" {
-				mm("prop", "any/"+c.mut.Kind+"/panic", "UnmarshalCBOR[any] panics: "+c.anyPan, "C12 (i)", true)
+				mm("prop", "any/panic", "UnmarshalCBOR[any] panics ("+c.mut.Kind+"): "+c.anyPan, "C12 (i)", true)
 				continue
 			}
 			if verdict == "err" && field(c.lG, 4) == "1" && !c.anyErr {
-				mm("corr", "any/"+c.mut.Kind+"/malformed-"+field(c.lG, 3)+"-accepted", "the model's strict decoder refuses the container ("+field(c.lG, 3)+") but serde.UnmarshalCBOR[any] accepts it", "C12 (iii) decode_rejects_malformed", true)
+				mm("corr", "any/malformed-"+field(c.lG, 3)+"-accepted", "the model's strict decoder refuses the container ("+field(c.lG, 3)+", "+c.mut.Kind+") but serde.UnmarshalCBOR[any] accepts it", "C12 (iii) decode_rejects_malformed", true)
 			}
 		}
 	}
@@ -937,6 +945,10 @@ func ruleText(r int) string {
 		return "NatPlus zero"
 	case 34:
 		return "dkls23 partial signature u or w zero"
+	case 35:
+		return "Pedersen share secret or blinding empty"
+	case 36:
+		return "Pedersen share secret and blinding lengths differ"
 	case 101:
 		return "CNF sets form an antichain"
 	case 102:
@@ -987,8 +999,11 @@ func replayCase(path string, samples []Sample) (*tcase, error) {
 		}
 		return &tcase{class: "any-mut", stream: vh.UnHex(f[1]), mut: mutation{Kind: kind}}, nil
 	case len(f) == 2 && f[0] == "anyenc":
-		// tree text is only re-read by the model; rebuild through the harness parser is not needed:
-		return nil, fmt.Errorf("anyenc replay: run the check with the same seed (case %s)", f[1])
+		tr, err := gparse(f[1])
+		if err != nil {
+			return nil, fmt.Errorf("anyenc replay: cannot parse item %q", f[1])
+		}
+		return &tcase{class: "any-enc", tree: tr, mut: mutation{Kind: "none"}}, nil
 	}
 	return nil, fmt.Errorf("unrecognised case line %q", txt)
 }
